@@ -246,9 +246,15 @@ func Print(w io.Writer, j *Journal) error {
 				return err
 			}
 		}
-		for _, a := range day.Assertions {
+		for i, a := range day.Assertions {
 			if _, err := p.PrintDirectiveLn(a); err != nil {
 				return err
+			}
+			// a multi-line assertion is terminated by a blank line
+			if len(a.Balances) > 1 && i < len(day.Assertions)-1 {
+				if _, err := io.WriteString(p, "\n"); err != nil {
+					return err
+				}
 			}
 		}
 		if len(day.Assertions) > 0 {
